@@ -315,8 +315,13 @@ def B.connect (b : B) (r : ConnectReq) : B :=
     | some old => b.kick old.conn (some 0x8E)
     | none => b
   let oldS := b.sess? r.cid
+  -- expiry is measured from the end of the last connection: the deadline kept in `offlineClients`
   let resume := match oldS with
-    | some s => !(s.connectedAt + s.expiry * 1000 < b.now) && !r.clean
+    | some _ =>
+      let expired := match b.offline.find? (fun (cd : String × Nat) => cd.1 == r.cid) with
+        | some cd => decide (b.now > cd.2)
+        | none => false
+      !expired && !r.clean
     | none => false
   -- old session ended: terminate, fire a delayed will now
   let b := match oldS with
